@@ -434,7 +434,7 @@ func rulesScanAliasPkg(c *Ctx, r *Report, rel string) {
 			r.holds("SCAN-ALIAS", fname(f), "view "+qname(sc.Call.StaticCallee()), c.pos(sc.Pos()), "this view is copied or only inspected before the next Scan")
 		}
 	}
-	r.floor("SCAN-ALIAS", len(sources), 4, "Scanner.Bytes call sites")
+	r.floor("SCAN-ALIAS", len(sources), 1, "Scanner.Bytes call sites")
 	withControl(r, "SCAN-ALIAS escaping view", func(cc *Ctx, fs []*ssa.Function) int {
 		_, h := detectScanAlias(cc, fs)
 		return len(h)
